@@ -756,7 +756,7 @@ func (u *Unit) execMultiAssign(st *ast.AssignStmt, env *Env) []Outcome {
 		return next(env)
 	case *ast.UnaryExpr:
 		if r.Op == token.ARROW {
-			v, ok := u.chanRecv(env, r.X, r.Pos())
+			v, ok := u.chanRecv2(env, r.X, r.Pos(), true)
 			u.assignTo(st.Lhs[0], v, env)
 			u.assignTo(st.Lhs[1], Value{ok, types.Typ[types.Bool]}, env)
 			return next(env)
@@ -1562,7 +1562,66 @@ func (u *Unit) loopName(s ast.Stmt) string {
 	return fmt.Sprintf("loop%d", n)
 }
 
+// "for { v, ok := <-ch; if !ok { break }; rest }" (or "{ return }" when the loop ends a result-less function) is
+// "for v := range ch { rest }": executed as that, under the loop's own ordinal
+func (u *Unit) asRangeOverChan(st *ast.ForStmt) *ast.RangeStmt {
+	if st.Init != nil || st.Cond != nil || st.Post != nil || len(st.Body.List) < 2 {
+		return nil
+	}
+	as, ok := st.Body.List[0].(*ast.AssignStmt)
+	if !ok || as.Tok != token.DEFINE || len(as.Lhs) != 2 || len(as.Rhs) != 1 {
+		return nil
+	}
+	rcv, ok := unparen(as.Rhs[0]).(*ast.UnaryExpr)
+	if !ok || rcv.Op != token.ARROW {
+		return nil
+	}
+	okObj := u.keyObj(as.Lhs[1])
+	ifs, ok := st.Body.List[1].(*ast.IfStmt)
+	if !ok || okObj == nil || ifs.Init != nil || ifs.Else != nil || len(ifs.Body.List) != 1 {
+		return nil
+	}
+	neg, ok := unparen(ifs.Cond).(*ast.UnaryExpr)
+	if !ok || neg.Op != token.NOT || u.keyObj(neg.X) != okObj {
+		return nil
+	}
+	switch ex := ifs.Body.List[0].(type) {
+	case *ast.BranchStmt:
+		if ex.Tok != token.BREAK || ex.Label != nil {
+			return nil
+		}
+	case *ast.ReturnStmt:
+		fn := u.curFn[len(u.curFn)-1]
+		body := fn.Decl.Body.List
+		if len(u.curFn) != 1 || u.litTarget != nil || len(ex.Results) != 0 || fn.Obj.Type().(*types.Signature).Results().Len() != 0 || len(body) == 0 || body[len(body)-1] != ast.Stmt(st) {
+			return nil
+		}
+	default:
+		return nil
+	}
+	// ok must not be used by the rest of the body
+	used := false
+	for _, r := range st.Body.List[2:] {
+		ast.Inspect(r, func(n ast.Node) bool {
+			if id, isId := n.(*ast.Ident); isId && u.Info.Uses[id] == okObj {
+				used = true
+			}
+			return true
+		})
+	}
+	if used {
+		return nil
+	}
+	return &ast.RangeStmt{For: st.For, Key: as.Lhs[0], Tok: token.DEFINE, X: rcv.X, Body: &ast.BlockStmt{Lbrace: st.Body.Lbrace, List: st.Body.List[2:], Rbrace: st.Body.Rbrace}}
+}
+
 func (u *Unit) execFor(st *ast.ForStmt, env *Env, label string) []Outcome {
+	if rs := u.asRangeOverChan(st); rs != nil {
+		if _, known := u.loops[rs]; !known {
+			u.loops[rs] = u.loops[st]
+		}
+		return u.execRange(rs, env, label)
+	}
 	if st.Init != nil {
 		outs := u.exec(st.Init, env)
 		if len(outs) != 1 || outs[0].kind != oNext {
@@ -1603,9 +1662,34 @@ func (u *Unit) execFor(st *ast.ForStmt, env *Env, label string) []Outcome {
 	var lower Term
 	if ivar != nil && st.Post != nil {
 		// "for i := e; ...; i++" whose body never assigns i: i never drops below its initial value (what a range loop gives for free)
-		if inc, ok := st.Post.(*ast.IncDecStmt); ok && inc.Tok == token.INC && u.keyObj(inc.X) == ivar && !assignsVar(u.Info, st.Body, ivar) {
+		if inc, ok := st.Post.(*ast.IncDecStmt); ok && inc.Tok == token.INC && u.keyObj(inc.X) == ivar && !assignsVar(u.Info, st.Body, ivar) && !u.assignedInALiteral(ivar) {
 			if t, ok := env.vars[ivar]; ok && t.Sort == SInt {
 				lower = t
+			}
+		}
+	}
+	// ... and with a condition "i < B" whose B the body cannot change (an identifier or len(identifier) that is not assigned in
+	// the body), i never exceeds B unless it still has its initial value
+	var boundExpr ast.Expr
+	if lower.S != "" {
+		if be, ok := st.Cond.(*ast.BinaryExpr); ok && be.Op == token.LSS && u.keyObj(be.X) == ivar {
+			b := unparen(be.Y)
+			var id *ast.Ident
+			if call, ok := b.(*ast.CallExpr); ok && len(call.Args) == 1 {
+				if f, ok := call.Fun.(*ast.Ident); ok && f.Name == "len" {
+					id, _ = unparen(call.Args[0]).(*ast.Ident)
+				}
+			} else {
+				id, _ = b.(*ast.Ident)
+			}
+			if id != nil {
+				if obj := u.Info.Uses[id]; obj != nil {
+					if _, isVar := obj.(*types.Var); isVar && !assignsVar(u.Info, st.Body, obj) && !u.assignedInALiteral(obj) {
+						if tt := u.Info.TypeOf(b); tt != nil && isIntegerT(tt) {
+							boundExpr = b
+						}
+					}
+				}
 			}
 		}
 	}
@@ -1613,6 +1697,15 @@ func (u *Unit) execFor(st *ast.ForStmt, env *Env, label string) []Outcome {
 	if lower.S != "" {
 		if t, ok := env.vars[ivar]; ok && t.Sort == SInt {
 			env.assume(le(lower, t))
+			if boundExpr != nil {
+				save := u.muteObs
+				u.muteObs = true
+				bv := u.eval(boundExpr, env)
+				u.muteObs = save
+				if bv.Sort == SInt {
+					env.assume(Or(le(t, bv.Term), Same(t, lower)))
+				}
+			}
 		}
 	}
 	setI(env)
@@ -1890,6 +1983,23 @@ func assignsVar(info *types.Info, body ast.Node, v types.Object) bool {
 		}
 		for _, l := range lhs {
 			if id, ok := unparen(l).(*ast.Ident); ok && (info.Uses[id] == v || info.Defs[id] == v) {
+				found = true
+			}
+		}
+		return true
+	})
+	return found
+}
+
+
+// is the variable assigned (or its address taken) inside any function literal of the function being executed?  (such a
+// literal could run during a loop body through a call)
+func (u *Unit) assignedInALiteral(v types.Object) bool {
+	owner := u.curFn[len(u.curFn)-1]
+	found := false
+	ast.Inspect(owner.Decl, func(n ast.Node) bool {
+		if lit, ok := n.(*ast.FuncLit); ok {
+			if assignsVar(owner.Pkg.TypesInfo, lit.Body, v) {
 				found = true
 			}
 		}
